@@ -568,6 +568,205 @@ theorem C13_bytes_out_error_value (cu : Custom) (hidem : ∀ s d, cu.canon s = s
   have hw := de_wellFormed cu hidem b
   exact ⟨ser (de cu b), rfl, C13_error_roundtrip_bytes cu (de cu b) hw.1 hw.2⟩
 
+/-! ## the registered path (`ServerFn::PATH`, table extracted from server_fn_macro) -/
+
+open Leptos.Gen.ServerFnPath in
+/-- with `endpoint = e`: prefix, a slash, the endpoint without its leading slashes -/
+theorem C13_path_with_endpoint (pfx : Option Str) (e name hash : Str) :
+    serverFnPath pfx (some e) name hash = pfx.getD defaultPrefix ++ '/' :: trimLead '/' e := by
+  simp [serverFnPath, pathPart, withEndpoint, endpointLead, endpointTrim]
+
+open Leptos.Gen.ServerFnPath in
+/-- without: prefix, a slash, the function name, the hash -/
+theorem C13_path_without_endpoint (pfx : Option Str) (name hash : Str) :
+    serverFnPath pfx none name hash = pfx.getD defaultPrefix ++ '/' :: (name ++ hash) := by
+  simp [serverFnPath, pathPart, withoutEndpoint]
+
+theorem trimLead_cons_self (c : Char) (s : Str) : trimLead c (c :: s) = trimLead c s := by
+  simp [trimLead]
+
+/-- leading slashes of the endpoint do not matter: `"x"`, `"/x"`, `"//x"` name the same path -/
+theorem C13_path_endpoint_slashes (pfx : Option Str) (e name hash : Str) :
+    serverFnPath pfx (some ('/' :: e)) name hash = serverFnPath pfx (some e) name hash := by
+  rw [C13_path_with_endpoint, C13_path_with_endpoint, trimLead_cons_self]
+
+/-- two functions of one module (same prefix, same hash) get different paths unless they have the same name -/
+theorem C13_path_names_distinct (pfx : Option Str) (n1 n2 hash : Str)
+    (h : serverFnPath pfx none n1 hash = serverFnPath pfx none n2 hash) : n1 = n2 := by
+  rw [C13_path_without_endpoint, C13_path_without_endpoint] at h
+  have h1 := List.append_cancel_left h
+  simp only [List.cons.injEq, true_and] at h1
+  exact List.append_cancel_right h1
+
+/-! ## the non-JS `<form>` fallback -/
+
+theorem runServerFull_fst {E α β : Type} (ie : InEnc) (ec : ErrCodec E) (ci : Codec α) (co : Codec β)
+    (body : α → Except E β) (req : Req) :
+    (runServerFull ie ec ci co body req).1 = runServer ie ec ci co body req := by
+  unfold runServerFull runServer
+  split
+  · rfl
+  · split
+    · rfl
+    · split <;> rfl
+
+/-- the error `run_on_server` keeps is the function's own error, or none when it returned `Ok`
+(for a request built by the client half, under the hypotheses of the pipeline theorem) -/
+theorem runServerFull_snd {E α β : Type} (ie : InEnc) (ec : ErrCodec E) (ci : Codec α) (co : Codec β)
+    (body : α → Except E β) (a : α) (data : Bytes) (henc : ci.enc a = .ok data) (hdec : ci.dec data = .ok a)
+    (hs : ie.slotsAgree = true) (ht : TextSafe ie ci) (hco : co.Lawful) :
+    (runServerFull ie ec ci co body (intoReq ie data)).2 =
+      match body a with | .error e => some e | .ok _ => none := by
+  have hdata := serverData_intoReq ie ec data hs (fun h => ht h a data henc)
+  simp only [runServerFull, serverInput, hdata, hdec]
+  cases hb : body a with
+  | error e => rfl
+  | ok o =>
+    obtain ⟨b, henc', _⟩ := hco o
+    simp [henc']
+
+/-- reading the error bytes back from a URL written by `to_url`, for any error encoding (text or binary) -/
+theorem to_url_bytes_roundtrip (base : Bytes) (path : Str) (errSer : Bytes) (hb : IsBytes errSer)
+    (hs : hasScheme base = true) :
+    ∃ u, toUrl base (utf8Encode path) errSer = some u ∧
+      (queryGetLast errKey (Url.formParse ((splitUrl u).query.getD []))).map b64Decode = some (.ok errSer) ∧
+      queryGetLast pathKey (Url.formParse ((splitUrl u).query.getD [])) = some (utf8Encode path) := by
+  obtain ⟨hpre, hq⟩ := splitUrl_clean base
+  have hascii := b64Encode_ascii errSer hb
+  have hb64 : IsBytes (b64Encode errSer) := fun x hx => by have := hascii x hx; omega
+  have vb64 : Url.utf8Valid (b64Encode errSer) = true := validGo_ascii _ hascii
+  have hp : IsBytes (utf8Encode path) := utf8Encode_bytes _
+  have vp : Url.utf8Valid (utf8Encode path) = true := utf8Valid_utf8Encode _
+  obtain ⟨pk1, pk2, ek1, ek2, hne⟩ := pathKey_props
+  have hq1 := appendPair_no_hash _ pathKey (utf8Encode path) pk1 hp hq
+  have hq2 := appendPair_no_hash _ errKey (b64Encode errSer) ek1 hb64 hq1
+  have hsplit := splitUrl_joinUrl (splitUrl base).pre _ (splitUrl base).frag hpre hq2
+  refine ⟨joinUrl ⟨(splitUrl base).pre, some (appendPair (appendPair ((splitUrl base).query.getD []) pathKey
+    (utf8Encode path)) errKey (b64Encode errSer)), (splitUrl base).frag⟩, ?_, ?_, ?_⟩
+  · simp only [toUrl, hs, if_true]
+  · rw [hsplit]
+    simp only [Option.getD_some]
+    rw [formParse_appendPair _ errKey _ ek1 hb64 ek2 vb64, queryGetLast_append_hit]
+    simp [b64Decode_encode errSer hb]
+  · rw [hsplit]
+    simp only [Option.getD_some]
+    rw [formParse_appendPair _ errKey _ ek1 hb64 ek2 vb64, formParse_appendPair _ pathKey _ pk1 hp pk2 vp,
+      queryGetLast_append_miss pathKey errKey _ _ (fun h => hne h.symm), queryGetLast_append_hit]
+
+/-- **Form fallback, error case (partial: absolute `Referer`)**: for every error value of *any* lawful error
+encoding — text or binary — and every absolute referer (query, fragment, stale error pairs), the `Location` of
+the redirect carries the error: `decode_err` of its `__err` pair is the error, `__path` is the function's path. -/
+theorem C13_form_fallback_error_partial {E : Type} (ec : ErrCodec E) (hec : ec.Lawful) (e : E)
+    (hbytes : IsBytes (ec.ser e)) (path : Str) (referer : Bytes) (hs : hasScheme referer = true) :
+    let loc := formLocation (utf8Encode path) (some referer) (some (ec.ser e))
+    let pairs := Url.formParse ((splitUrl loc).query.getD [])
+    (queryGetLast errKey pairs).map (fun v => (b64Decode v).map ec.de) = some (.ok e) ∧
+    queryGetLast pathKey pairs = some (utf8Encode path) := by
+  obtain ⟨u, hu, h1, h2⟩ := to_url_bytes_roundtrip referer path (ec.ser e) hbytes hs
+  simp only [formLocation, Option.getD_some, hu]
+  refine ⟨?_, h2⟩
+  cases hq : queryGetLast errKey (Url.formParse ((splitUrl u).query.getD [])) with
+  | none => rw [hq] at h1; cases h1
+  | some v =>
+    rw [hq] at h1
+    simp only [Option.map_some, Option.some.injEq] at h1 ⊢
+    rw [h1]
+    simp [Except.map, hec e]
+
+/-- the full statement: for every referer the browser may (or may not) send -/
+def C13_form_fallback_error_full : Prop :=
+  ∀ (referer : Option Bytes) (path : Str) (e : SErr), e.WellFormed noCustomError →
+    let loc := formLocation (utf8Encode path) referer (some (ser e))
+    ∃ v, queryGetLast errKey (Url.formParse ((splitUrl loc).query.getD [])) = some v
+
+/-- witness (F-C13-5): without a `Referer` header `to_url("/")` fails and the error is dropped: the browser
+is sent to `/` with nothing in the URL -/
+theorem C13_form_no_referer_witness :
+    formLocation (utf8Encode "/api/f".toList) none (some (ser ⟨"ServerError".toList, "boom".toList⟩)) = [47] := by
+  decide
+
+theorem C13_form_fallback_error_full_false : ¬ C13_form_fallback_error_full := by
+  intro h
+  obtain ⟨v, hv⟩ := h none "/api/f".toList ⟨"ServerError".toList, "boom".toList⟩ (by constructor <;> decide)
+  simp only [C13_form_no_referer_witness] at hv
+  have : queryGetLast errKey (Url.formParse ((splitUrl [47]).query.getD [])) = none := by decide
+  rw [this] at hv
+  cases hv
+
+/-- **Form fallback, success case**: stale error info of an earlier submission is stripped from the
+referer; without a referer the browser is sent to `/` -/
+theorem C13_form_fallback_ok (path : Bytes) (referer : Option Bytes) :
+    formLocation path referer none = match referer with | some r => stripErrorInfo r | none => [47] := by
+  cases referer <;> rfl
+
+/-- the whole fallback for a request built by the client half: status 302, the body of the ordinary answer,
+and the `Location` decided by the function's own result -/
+theorem C13_form_fallback_outcome {E α β : Type} (ie : InEnc) (ec : ErrCodec E) (ci : Codec α) (co : Codec β)
+    (body : α → Except E β) (a : α) (data : Bytes) (henc : ci.enc a = .ok data) (hdec : ci.dec data = .ok a)
+    (hs : ie.slotsAgree = true) (ht : TextSafe ie ci) (hco : co.Lawful) (path : Bytes) (referer : Option Bytes) :
+    runOnServerForm ie ec ci co body path referer (intoReq ie data) =
+      ⟨302, formLocation path referer (match body a with | .error e => some (ec.ser e) | .ok _ => none),
+        (runServer ie ec ci co body (intoReq ie data)).body⟩ := by
+  have h1 := runServerFull_fst ie ec ci co body (intoReq ie data)
+  have h2 := runServerFull_snd ie ec ci co body a data henc hdec hs ht hco
+  unfold runOnServerForm
+  rw [← h1]
+  cases hr : runServerFull ie ec ci co body (intoReq ie data) with
+  | mk res err =>
+    rw [hr] at h2
+    simp only at h2
+    subst h2
+    cases body a <;> rfl
+
+/-! ## middleware -/
+
+theorem applyLayers_id (layers : List Middleware) (h : ∀ l ∈ layers, ∀ inner, l inner = inner) (handler : Req → Res) :
+    applyLayers layers handler = handler := by
+  unfold applyLayers
+  induction layers generalizing handler with
+  | nil => rfl
+  | cons l ls ih =>
+    simp only [List.foldl_cons]
+    rw [h l (by simp)]
+    exact ih (fun x hx => h x (by simp [hx])) handler
+
+/-- **Pass-through middleware** (any number of layers) does not change what the caller gets -/
+theorem C13_middleware_identity {E α β : Type} (ie : InEnc) (hie : ie ∈ inputEncodings) (ec : ErrCodec E)
+    (ci : Codec α) (co : Codec β) (layers : List Middleware) (hl : ∀ l ∈ layers, ∀ inner, l inner = inner)
+    (body : α → Except E β) (a : α)
+    (hci : ci.Lawful) (hco : co.Lawful) (hec : ec.Lawful) (ht : TextSafe ie ci) :
+    remoteCallMw ie ec ci co layers body a = body a := by
+  unfold remoteCallMw
+  rw [applyLayers_id layers hl]
+  exact C13_pipeline_refines_direct ie hie ec ci co body a hci hco hec ht
+
+/-- **A middleware that answers itself** reaches the caller as the declared error built by
+`from_server_fn_error(MiddlewareError(msg))` — kind and message intact — and otherwise is transparent -/
+theorem C13_middleware_block {E α β : Type} (ie : InEnc) (hie : ie ∈ inputEncodings) (ec : ErrCodec E)
+    (ci : Codec α) (co : Codec β) (pred : Req → Bool) (msg : Str) (body : α → Except E β) (a : α) (data : Bytes)
+    (henc : ci.enc a = .ok data)
+    (hci : ci.Lawful) (hco : co.Lawful) (hec : ec.Lawful) (ht : TextSafe ie ci) :
+    remoteCallMw ie ec ci co [mwBlock ec pred msg] body a =
+      if pred (intoReq ie data) then .error (ec.fromSfe middlewareKind msg) else body a := by
+  have hmeth : (intoReq ie data).method = ie.method := by
+    unfold intoReq; split <;> simp [C13_table_methods_agree ie hie]
+  by_cases hp : pred (intoReq ie data) = true
+  · simp only [remoteCallMw, runClient, henc, dispatch, hmeth, if_true, applyLayers, List.foldl_cons, List.foldl_nil,
+      mwBlock, hp, errorResponse, clientDecode, isErrorStatus]
+    simp [hec (ec.fromSfe middlewareKind msg)]
+  · have hrc := C13_pipeline_refines_direct ie hie ec ci co body a hci hco hec ht
+    simp only [remoteCall, runClient, henc, dispatch, hmeth, if_true] at hrc
+    simp only [remoteCallMw, runClient, henc, dispatch, hmeth, if_true, applyLayers, List.foldl_cons, List.foldl_nil,
+      mwBlock, hp, Bool.false_eq_true, if_false]
+    exact hrc
+
+/-- a function without arguments: the unit codec is lawful, so the pipeline theorem applies -/
+theorem C13_noargs {E β : Type} (ie : InEnc) (hie : ie ∈ inputEncodings) (ec : ErrCodec E) (co : Codec β)
+    (result : Except E β) (hco : co.Lawful) (hec : ec.Lawful) :
+    remoteCall ie ec unitCodec co (fun _ => result) () = result :=
+  C13_pipeline_refines_direct ie hie ec unitCodec co (fun _ => result) () (fun _ => ⟨[], rfl, rfl⟩) hco hec
+    (fun _ _ b hb => by simp [unitCodec] at hb; subst hb; rfl)
+
 /-! ## non-vacuity -/
 
 /-- a message full of separators and line breaks, through text and bytes -/
@@ -609,6 +808,25 @@ example : remoteCall ⟨"GetUrl", .get, .get, .query, .query, argsKind⟩ (sfeCo
 /-- a text cut one byte at a time, with an empty chunk in between -/
 example : textDecodeItems [[97], [0xF0], [0x9F], [], [0x98], [0x80, 0xC3], [0xA9]] =
     [.ok [97], .ok [0xF0, 0x9F, 0x98, 0x80], .ok [0xC3, 0xA9]] := by decide
+
+/-- the paths of the harness' functions, from the extracted derivation -/
+example : serverFnPath (some "/rpc/v1".toList) (some "//t_prefix".toList) "t_prefix".toList "123".toList =
+    "/rpc/v1/t_prefix".toList := by decide
+example : serverFnPath none none "t_default_path".toList "8123".toList = "/api/t_default_path8123".toList := by decide
+
+/-- the fallback with an absolute referer carrying a stale error: the new error wins -/
+example :
+    let loc := formLocation (utf8Encode "/api/f".toList) (some (utf8Encode "http://h/p?__err=c3RhbGU=#x".toList))
+      (some (ser ⟨"Args".toList, "a|b".toList⟩))
+    (queryGetLast errKey (Url.formParse ((splitUrl loc).query.getD []))).map (decodeErrUrl noCustomError) =
+      some ⟨"Args".toList, "a|b".toList⟩ := by decide
+
+example : hasScheme (utf8Encode "http://h/p?__err=c3RhbGU=#x".toList) = true := by decide
+
+/-- a blocking middleware: the error reaches the caller -/
+example : remoteCallMw ⟨"Post", .post, .post, .bodyBytes, .bodyBytes, deserializationKind⟩ (sfeCodec noCustomError)
+    idCodec idCodec [mwBlock (sfeCodec noCustomError) (fun r => r.body.head? == some 255) "no|entry".toList]
+    (fun x => .ok x) [255, 1] = .error ⟨middlewareKind, "no|entry".toList⟩ := by decide
 
 /-- a failure in the middle of a streamed response: the rows, the error, and the row after it -/
 example : textOutRemote noCustomError
